@@ -36,6 +36,31 @@ func successResultSlice(w *World, fn *ssa.Function, nres int, each func(r *ssa.R
 	return n
 }
 
+// dominatingCall: is there a call to callee (optionally with a constant argument) that
+// dominates ret and whose result is part of what ret returns?
+func dominatingCall(w *World, fn *ssa.Function, ret *ssa.Return, callee string, constArg string) bool {
+	res := retResults(ret)
+	sl := w.BackSlice(res[0], sliceOpt{})
+	for _, cs := range w.CallsTo(callee) {
+		if cs.Fn != fn || !dominatesInstr(cs.Instr, ret) {
+			continue
+		}
+		v, ok := cs.Instr.(ssa.Value)
+		if !ok || !sl.Values[v] {
+			continue
+		}
+		if constArg == "" {
+			return true
+		}
+		for _, a := range cs.Args() {
+			if w.BackSlice(a, sliceOpt{}).Consts[constArg] {
+				return true
+			}
+		}
+	}
+	return false
+}
+
 func checkC02(c *Ctx) {
 	w := c.W
 	// R02.1 ---------------------------------------------------------------
@@ -49,7 +74,8 @@ func checkC02(c *Ctx) {
 				{`"-buildid"`, "-buildid cleared (no build IDs)"}, {`"-w"`, "-w (no DWARF)"}, {`"-s"`, "-s (no symbol table)"},
 				{`"-X=runtime.buildVersion=unknown"`, "Go version overridden"}, {`"-importcfg"`, "importcfg replaced by the rewritten one (drops modinfo)"},
 			} {
-				c.Check(sl.Consts[want.k], "R02.1", "transformLink result carries "+strings.Trim(want.k, `"`), pos, want.what,
+				dom := dominatingCall(w, tl, r, "builtin.append", want.k) || dominatingCall(w, tl, r, "mvdan.cc/garble.flagSetValue", want.k)
+				c.Check(sl.Consts[want.k] && dom, "R02.1", "transformLink result carries "+strings.Trim(want.k, `"`), pos, want.what,
 					"the flags handed to the linker on success do not depend on "+want.k+": "+want.what+" is lost")
 			}
 			// -buildid is set to the empty string
@@ -108,7 +134,7 @@ func checkC02(c *Ctx) {
 		k := 0
 		successResultSlice(w, fn, 2, func(r *ssa.Return, sl *Slice) {
 			k++
-			c.Check(sl.HasCall("mvdan.cc/garble.alterTrimpath"), "R02.3", fmt.Sprintf("%s success return #%d goes through alterTrimpath", name, k), w.Pos(r.Pos()),
+			c.Check(sl.HasCall("mvdan.cc/garble.alterTrimpath") && dominatingCall(w, fn, r, "mvdan.cc/garble.alterTrimpath", ""), "R02.3", fmt.Sprintf("%s success return #%d goes through alterTrimpath", name, k), w.Pos(r.Pos()),
 				"flags = alterTrimpath(flags)", "a tool command line is returned without the temp dir having been added to -trimpath: the path of garble's temp dir leaks into the object file")
 		})
 	}
@@ -180,7 +206,7 @@ func checkC02(c *Ctx) {
 		k := 0
 		successResultSlice(w, tc, 2, func(r *ssa.Return, sl *Slice) {
 			k++
-			c.Check(sl.Consts[`"-dwarf=false"`], "R02.4", fmt.Sprintf("transformCompile success return #%d sets -dwarf=false", k), w.Pos(r.Pos()), "no DWARF is generated", "-dwarf=false is not on the compiler command line")
+			c.Check(sl.Consts[`"-dwarf=false"`] && dominatingCall(w, tc, r, "builtin.append", `"-dwarf=false"`), "R02.4", fmt.Sprintf("transformCompile success return #%d sets -dwarf=false", k), w.Pos(r.Pos()), "no DWARF is generated", "-dwarf=false is not on the compiler command line")
 			okP := false
 			for _, cv := range sl.Calls["mvdan.cc/garble.flagSetValue"] {
 				call := cv.(*ssa.Call)
